@@ -38,6 +38,10 @@ type Solver struct {
 	SolveTime time.Duration
 	errors    int
 	dead      bool
+	pathLog   strings.Builder // everything sent at path level since BeginPath (for one-shot fallback)
+	fast      time.Duration   // incremental attempt budget
+	NFallback int
+	NFallbackSolved int
 }
 
 func NewSolver(kind string, timeout time.Duration) (*Solver, error) {
@@ -65,7 +69,10 @@ func NewSolver(kind string, timeout time.Duration) (*Solver, error) {
 	if err := cmd.Start(); err != nil {
 		return nil, err
 	}
-	s := &Solver{kind: kind, cmd: cmd, in: in, out: bufio.NewReaderSize(out, 1<<16), timeout: timeout}
+	s := &Solver{kind: kind, cmd: cmd, in: in, out: bufio.NewReaderSize(out, 1<<16), timeout: timeout, fast: 3 * time.Second}
+	if s.fast > timeout {
+		s.fast = timeout
+	}
 	if f := os.Getenv("GOSYM_SMTLOG"); f != "" {
 		s.log, _ = os.OpenFile(fmt.Sprintf("%s.%d", f, cmd.Process.Pid), os.O_CREATE|os.O_WRONLY|os.O_TRUNC, 0644)
 	}
@@ -124,6 +131,12 @@ func (s *Solver) readUntilMarker() []string {
 func (s *Solver) BeginPath() {
 	s.send("(push 1)\n")
 	s.printer = NewPrinter()
+	s.pathLog.Reset()
+}
+
+func (s *Solver) sendPath(txt string) {
+	s.pathLog.WriteString(txt)
+	s.send(txt)
 }
 
 func (s *Solver) EndPath() {
@@ -133,7 +146,7 @@ func (s *Solver) EndPath() {
 
 func (s *Solver) flushDefs() {
 	if s.printer.out.Len() > 0 {
-		s.send(s.printer.out.String())
+		s.sendPath(s.printer.out.String())
 		s.printer.out.Reset()
 	}
 }
@@ -145,7 +158,7 @@ func (s *Solver) Assert(t *Term) {
 	}
 	txt := s.printer.Emit(t)
 	s.flushDefs()
-	s.send("(assert " + txt + ")\n")
+	s.sendPath("(assert " + txt + ")\n")
 }
 
 // Declare makes sure the variables are declared (so get-value works).
@@ -164,11 +177,15 @@ func (s *Solver) Check(extra *Term, vars []*Term, wantModel bool) (SatResult, *M
 		return Unknown, nil
 	}
 	pushed := false
+	extraTxt := ""
 	if extra != nil && !(extra.Op == OpBConst && extra.B) {
-		txt := s.printer.Emit(extra)
+		extraTxt = s.printer.Emit(extra)
 		s.flushDefs()
-		s.send("(push 1)\n(assert " + txt + ")\n")
+		s.send("(push 1)\n(assert " + extraTxt + ")\n")
 		pushed = true
+	}
+	if s.kind != "cvc5" {
+		s.send(fmt.Sprintf("(set-option :timeout %d)\n", s.fast.Milliseconds()))
 	}
 	s.send("(check-sat)\n")
 	lines := s.readUntilMarker()
@@ -201,6 +218,16 @@ func (s *Solver) Check(extra *Term, vars []*Term, wantModel bool) (SatResult, *M
 	if pushed {
 		s.send("(pop 1)\n")
 	}
+	if res == Unknown && !s.dead {
+		// the incremental engine is weak on nonlinear/div-mod goals; retry one-shot (fresh process,
+		// full preprocessing) on a small portfolio
+		s.NFallback++
+		r2, m2 := s.oneShot(extraTxt, vars, wantModel)
+		if r2 != Unknown {
+			s.NFallbackSolved++
+			res, model = r2, m2
+		}
+	}
 	switch res {
 	case Sat:
 		s.NSat++
@@ -229,6 +256,10 @@ func (s *Solver) getModel(vars []*Term) *Model {
 		fmt.Fprintf(os.Stderr, "get-value error: %s\n", txt)
 		return nil
 	}
+	return parseModel(txt)
+}
+
+func parseModel(txt string) *Model {
 	m := &Model{Ints: map[string]*big.Int{}, Bools: map[string]bool{}}
 	toks := tokenize(txt)
 	// expected: ( ( name value ) ( name value ) ... ) where value may be (- n)
@@ -309,4 +340,79 @@ func tokenize(s string) []string {
 	}
 	flush()
 	return toks
+}
+
+// oneShot decides the current path condition plus extra in fresh solver processes.
+func (s *Solver) oneShot(extraTxt string, vars []*Term, wantModel bool) (SatResult, *Model) {
+	var sb strings.Builder
+	sb.WriteString("(set-option :produce-models true)\n")
+	sb.WriteString(s.pathLog.String())
+	if extraTxt != "" {
+		sb.WriteString("(assert " + extraTxt + ")\n")
+	}
+	sb.WriteString("(check-sat)\n")
+	script := sb.String()
+	secs := int(s.timeout.Seconds())
+	if secs < 1 {
+		secs = 1
+	}
+	type cfg struct {
+		name string
+		args []string
+		pre  string
+	}
+	cfgs := []cfg{
+		{"/usr/bin/z3", []string{"-in", "-smt2", fmt.Sprintf("-T:%d", secs)}, ""},
+		{"z3-new", []string{"-in", "-smt2", fmt.Sprintf("-T:%d", secs)}, ""},
+		{"cvc5", []string{"--lang=smt2", "--produce-models", fmt.Sprintf("--tlimit=%d", secs*1000)}, "(set-logic ALL)\n"},
+	}
+	for _, c := range cfgs {
+		cmd := exec.Command(c.name, c.args...)
+		full := c.pre + script
+		getv := ""
+		if wantModel && len(vars) > 0 {
+			var gv strings.Builder
+			gv.WriteString("(get-value (")
+			for _, v := range vars {
+				if s.printer.declared[v.Name] {
+					gv.WriteString(v.Name)
+					gv.WriteByte(' ')
+				}
+			}
+			gv.WriteString("))\n")
+			getv = gv.String()
+		}
+		cmd.Stdin = strings.NewReader(full + getv)
+		out, _ := cmd.CombinedOutput()
+		txt := string(out)
+		first := ""
+		for _, l := range strings.Split(txt, "\n") {
+			l = strings.TrimSpace(l)
+			if l == "sat" || l == "unsat" || l == "unknown" || l == "timeout" {
+				first = l
+				break
+			}
+		}
+		switch first {
+		case "unsat":
+			if strings.Contains(txt, "(error") && !strings.Contains(txt, "model is not available") {
+				continue
+			}
+			return Unsat, nil
+		case "sat":
+			if !wantModel || len(vars) == 0 {
+				return Sat, nil
+			}
+			i := strings.Index(txt, "sat")
+			rest := txt[i+3:]
+			if strings.Contains(rest, "(error") {
+				continue
+			}
+			m := parseModel(rest)
+			if m != nil {
+				return Sat, m
+			}
+		}
+	}
+	return Unknown, nil
 }
